@@ -161,8 +161,8 @@ theorem code_decode (E : Externs) (s : List UInt8) (hlen : s.length < 2 ^ 63) :
 open Iota.Tie.Bech32Code (bv) in
 open Iota.Tie.Bech32CharsCode (encTable decTable) in
 open Iota.Tie.Bech32ApiCode in
-/-- **`Encode`**, every prefix and every payload below 2^60 bytes (beyond that `EncodedLen` wraps around and `make` panics —
-`encode_panics_at_2_60`): the model's result, and no panic -/
+/-- **`Encode`**, every prefix shorter than 2^62 and every payload shorter than 2^60 bytes (at exactly 2^60 `EncodedLen` wraps
+around and `make` panics — `encode_panics_at_2_60`): the model's result, and no panic -/
 theorem code_encode (E : Externs) (hrp src : List UInt8) (hh : hrp.length < 2 ^ 62) (hs : src.length < 2 ^ 60) :
     (Gen.Bech32.api.Encode encTable E.toLower E.toUpper (bv hrp) (bv src) =
       some (match Bech32.encode hrp src with
